@@ -1,12 +1,132 @@
-(* C14 — RTSP wire codec.  Statements only; proofs are in Proofs/C14RtspCodecProofs.v. *)
+(* C14 — RTSP wire codec round-trips and frames interleaved data exactly.
+   Statements only; proofs are in Proofs/C14RtspCodecProofs.v and C14RtspCodecProofs2.v.
+   [url] is net/url (ParseRequestURI + host fix + String) as an arbitrary function; the
+   round-trip guards contain the law  url u = Some u  for the URLs of the written requests. *)
 From Coq Require Import ZArith List Bool.
-From V Require Import Val Bytes StrGo C14RtspCodec C14RtspCodecProofs.
+From V Require Import Val Bytes StrGo C14RtspCodec C14RtspCodecProofs C14RtspCodecProofs2.
 Import ListNotations.
 Open Scope Z_scope.
 
+(* a written request reads back as its normal form, leaving exactly what followed it *)
+Theorem C14_request_roundtrip : forall url q rest,
+  request_wf url q = true ->
+  read_request url (write_request q ++ rest) = Ok (norm_request q) rest.
+Proof. exact request_roundtrip. Qed.
+Print Assumptions C14_request_roundtrip.
+
+Theorem C14_response_roundtrip : forall p rest,
+  response_wf p = true ->
+  read_response (write_response p ++ rest) = Ok (norm_response p) rest.
+Proof. exact response_roundtrip. Qed.
+Print Assumptions C14_response_roundtrip.
+
+(* any wire channel 0..255 (cfg[ch]), any payload of 0..65535 bytes *)
+Theorem C14_frame_roundtrip : forall cfg ch data rest,
+  pack_wf cfg ch data = true ->
+  read_packet cfg (write_packet cfg ch data ++ rest) = Ok (EvPack ch data) rest.
+Proof. exact frame_roundtrip. Qed.
+Print Assumptions C14_frame_roundtrip.
+
+(* the dispatcher consumes exactly one message or frame *)
+Theorem C14_receive_exact : forall url cfg it rest,
+  item_wf url cfg it = true ->
+  receive url cfg (encode cfg it ++ rest) = Ok (norm_item it) rest.
+Proof. exact receive_exact. Qed.
+Print Assumptions C14_receive_exact.
+
+(* for every list of requests, responses and frames the read loop yields exactly that
+   sequence; after each read the remaining input is exactly the encodings of the rest *)
+Theorem C14_stream_reader_exact : forall url cfg items,
+  forallb (item_wf url cfg) items = true ->
+  read_stream (receive url cfg) (concat_items cfg items) = (expected cfg items [], FDone).
+Proof. exact stream_reader_exact. Qed.
+Print Assumptions C14_stream_reader_exact.
+
+(* ... and whatever bytes follow are read from exactly where the last item ended *)
+Theorem C14_stream_reader_exact_tail : forall url cfg items tail,
+  forallb (item_wf url cfg) items = true ->
+  read_stream (receive url cfg) (concat_items cfg items ++ tail) =
+  let '(evs, fin) := read_stream (receive url cfg) tail in (expected cfg items tail ++ evs, fin).
+Proof. exact stream_reader_exact_tail. Qed.
+Print Assumptions C14_stream_reader_exact_tail.
+
+(* every byte string gives a message, a frame or an error: no reader panics, the loop ends *)
+Theorem C14_reader_total : forall url cfg s,
+  read_request url s <> Panic /\ read_response s <> Panic /\ read_packet cfg s <> Panic /\
+  receive url cfg s <> Panic /\
+  forall kind, match snd (read_stream (stepper url kind cfg) s) with
+               | FDone | FErr _ => True | FPanic | FFuel => False end.
+Proof. exact reader_total. Qed.
+Print Assumptions C14_reader_total.
+
+Theorem C14_read_header_no_fuel : forall s, read_header s <> Err EFuel.
+Proof. exact read_header_no_fuel. Qed.
+Print Assumptions C14_read_header_no_fuel.
+
+(* what is buffered for one message is bounded; over-long lines and absurd Content-Length are
+   rejected on a bounded prefix *)
+Theorem C14_reader_bounded :
+  (forall s l rest, read_line s = Ok l rest -> zlen l <= max_line) /\
+  (forall p t, ~ In LF p -> max_line + 2 <= zlen p -> read_line (p ++ t) = Err ELineTooLong) /\
+  (forall h s body rest, read_body h s = Ok body rest -> zlen body <= max_body) /\
+  (forall h s, max_body < content_length h -> read_body h s = Err EBodyTooBig) /\
+  (forall url s q rest, read_request url s = Ok q rest ->
+     request_size q <= max_line * (hcount (q_hdr q) + 1) + max_body) /\
+  (forall s p rest, read_response s = Ok p rest ->
+     response_size p <= max_line * (hcount (p_hdr p) + 1) + max_body).
+Proof. exact reader_bounded. Qed.
+Print Assumptions C14_reader_bounded.
+
+(* the oracle applied to the implementation accepts the model: written streams ... *)
+Theorem C14_model_passes : forall cfg items tail slack,
+  0 <= slack ->
+  let s := concat_items cfg items ++ tail in
+  let '(evs, fin) := model_obs url_accept 0 cfg s in
+  ok_items cfg items tail slack s evs fin (zlen s) = true.
+Proof. exact model_passes_items. Qed.
+Print Assumptions C14_model_passes.
+
+(* ... and raw streams, whatever net/url answers *)
+Theorem C14_model_passes_raw : forall url kind cfg s slack,
+  0 <= slack ->
+  let '(evs, fin) := model_obs url kind cfg s in ok_raw kind cfg s slack evs fin (zlen s) = true.
+Proof. exact model_passes_raw. Qed.
+Print Assumptions C14_model_passes_raw.
+
+(* the code before the repairs (D26): unbounded line, unbounded / padded body, pion panic *)
+Theorem C14_unbounded_line_refuted : forall n,
+  read_line_lim None (repeat 65 (S n) ++ [LF]) = Ok (repeat 65 (S n)) [].
+Proof. exact read_line_unbounded_refuted. Qed.
+Print Assumptions C14_unbounded_line_refuted.
+
+Theorem C14_unbounded_body_refuted :
+  exists h, content_length h = 2000000000 /\ read_body_lim None true h [] <> Err EBodyTooBig /\
+            read_body h [] = Err EBodyTooBig.
+Proof. exact read_body_unbounded_refuted. Qed.
+Print Assumptions C14_unbounded_body_refuted.
+
+Theorem C14_padded_body_refuted :
+  read_body_lim None true [(CONTENT_LENGTH, [[53]])] [97; 98] = Ok [97; 98; 0; 0; 0] [].
+Proof. exact read_body_padded_refuted. Qed.
+Print Assumptions C14_padded_body_refuted.
+
+Theorem C14_packet_panic_refuted :
+  read_packet_gen false [0; 1; 2; 3]
+    [36; 0; 0; 20; 144; 96; 0; 1; 0; 0; 0; 0; 0; 0; 0; 0; 190; 222; 0; 1; 31; 0; 0; 0] = Panic.
+Proof. exact read_packet_panic_refuted. Qed.
+Print Assumptions C14_packet_panic_refuted.
+
+(* non-vacuity: a request with an odd-case multi-valued header and a body, a response and
+   two frames satisfy the guards, and the loop reads them back *)
 Example C14_nonvacuous :
-  read_request url_accept
-    [79;80;84;73;79;78;83;32;42;32;82;84;83;80;47;49;46;48;13;10;67;83;101;113;58;32;49;13;10;13;10;36]
-  = Ok {| q_method := OPTIONS; q_url := STAR; q_proto := RTSP10;
-          q_hdr := [([67;83;101;113], [[49]])]; q_body := [] |} [36].
-Proof. vm_compute. reflexivity. Qed.
+  let cfg := [0; 1; 2; 3] in
+  let q := {| q_method := [80;76;65;89]; q_url := [114;116;115;112;58;47;47;91;58;58;49;93;47;97]; q_proto := RTSP10;
+              q_hdr := [([99;115;101;113], [[49]]); ([88;45;70], [[97]; [98]])]; q_body := [104;105] |} in
+  let p := {| p_proto := RTSP10; p_code := 200; p_status := []; p_hdr := [([67;83;101;113], [[49]])]; p_body := [] |} in
+  let items := [IReq q; IPack 1 [1;2;3]; IResp p; IPack 0 [128;96;0;1;0;0;0;0;0;0;0;0;7]] in
+  forallb (item_wf url_accept cfg) items = true /\
+  hvals (q_hdr (norm_request q)) [67;83;101;113] = [[49]] /\
+  hvals (q_hdr (norm_request q)) [88;45;70] = [[97;44;32;98]] /\
+  snd (read_stream (receive url_accept cfg) (concat_items cfg items)) = FDone /\
+  length (fst (read_stream (receive url_accept cfg) (concat_items cfg items))) = 4%nat.
+Proof. vm_compute. repeat split. Qed.
